@@ -123,14 +123,31 @@ class CacheMonitor:
         errors = []
         unhandled = []
 
-        def mk(cbid, kind):
+        from frappy.client import UnregisterCallback
+
+        def mk(cbid, kind, oneshot=None):
+            # oneshot=n: a one-shot callback - it unregisters itself (raises UnregisterCallback) in its n-th call
+            # after the registration; that call still counts, later messages must not reach it
+            st = {'n': 0, 'armed': False}
+
+            def after_call():
+                if oneshot is not None and st['armed']:
+                    st['n'] += 1
+                    if st['n'] >= oneshot:
+                        regs[cbid][5] = 'leaving'
+                        r.count('oneshot_callbacks_left')
+                        raise UnregisterCallback()
             if kind == 'updateItem':
                 def updateItem(module, param, item, _c=cbid):
                     calls.append((_c, 'item', module, param, (item.value, item.timestamp, item.readerror)))
+                    after_call()
+                updateItem.arm = lambda: st.update(armed=True)
                 return updateItem
 
             def updateEvent(module, param, value, timestamp, readerror, _c=cbid):
                 calls.append((_c, 'event', module, param, (value, timestamp, readerror)))
+                after_call()
+            updateEvent.arm = lambda: st.update(armed=True)
             return updateEvent
         regs = []        # (cbid, key, kind, func, registered_at_message_index)
         client.callbacks['handleError'].clear()
@@ -142,12 +159,14 @@ class CacheMonitor:
             p = rng.choice(params)
             key = rng.choice([None, p[0], (p[0], p[2])])
             kind = rng.choice(['updateItem', 'updateEvent'])
-            f = mk(cbid, kind)
+            oneshot = rng.choice([1, 1, 2]) if rng.random() < 0.35 else None
+            f = mk(cbid, kind, oneshot)
             n0 = len(calls)
             snapshot = {k: v for k, v in client.cache.items()}
-            client.register_callback(key, **{kind: f})
             regs.append([cbid, key, kind, f, at, True])
-            pattern.append(('reg', 'node' if key is None else 'module' if isinstance(key, str) else 'param', kind))
+            client.register_callback(key, **{kind: f})
+            f.arm()
+            pattern.append(('reg', 'node' if key is None else 'module' if isinstance(key, str) else 'param', kind) + (('oneshot', oneshot) if oneshot else ()))
             # registration calls back immediately with the cached state
             r.count('registration_calls_checked')
             got = [(c[2], c[3]) for c in calls[n0:]]
@@ -162,7 +181,7 @@ class CacheMonitor:
                             {'sub': 'cache', 'pattern': pattern})
                 return False
             return True
-        for _ in range(rng.choice([0, 1, 2])):
+        for _ in range(rng.choice([0, 1, 2, 3, 4])):
             if not register(0):
                 return
         # ---- message sequence
@@ -228,7 +247,7 @@ class CacheMonitor:
             if sc[0] == 'ctl':
                 if regs and rng.random() < 0.4:
                     reg = rng.choice(regs)
-                    if reg[5]:
+                    if reg[5] is True:
                         client.unregister_callback(reg[1], **{reg[2]: reg[3]})
                         reg[5] = False
                         pattern.append(('unreg',))
@@ -251,10 +270,14 @@ class CacheMonitor:
             fed += 1
             r.count('messages_fed')
             new = calls[n0:]
+            leaving_now = [reg for reg in regs if reg[5] == 'leaving']
+            for reg in leaving_now:
+                reg[5] = False
             case = {'sub': 'cache', 'line': line[:300], 'pattern': pattern, 'kinds': sorted(kinds)}
             if sc[0] == 'msg':
                 key = sc[1]
-                active = [reg for reg in regs if reg[5] and (reg[1] is None or reg[1] == key[0] or reg[1] == key)]
+                # one-shot callbacks that left during this message were still called for it
+                active = [reg for reg in regs if (reg[5] or reg in leaving_now) and (reg[1] is None or reg[1] == key[0] or reg[1] == key)]
                 r.count('callback_counts_checked')
                 got_ids = [c[0] for c in new]
                 if sorted(got_ids) != sorted(reg[0] for reg in active):
